@@ -71,6 +71,22 @@ def gen_grid_trace(seed, prop, tier):
                  {"op": "frame", "slot": 0, "gt": False, "keep": False}]
         return {"kind": "mesh", "prop": prop, "config": "grid", "seed": seed, "inputs": [inp], "steps": steps,
                 "release_order": "fifo", "grid": {"shipped": inp["file"], "sym": inp["sym"], "mirror_y": inp["mirror_y"], "ne": ne}}
+    if g % 12 == 6:
+        # boundary values of the WKT reader (it stores y as 1024 - y): an axis-parallel regular lattice,
+        # integer-like coordinates, placed so that it straddles y = 1024 (row on the line / line mid-row)
+        k = ((g // 12) * 37 + base * 101) % 288     # scrambled: a short run spreads over all parameters
+        sc = [6.0, 10.0, 24.0][k % 3]
+        ny = [2, 3, 4][(k // 3) % 3]
+        spec = {"kind": "voronoi", "lattice": "quad", "nx": [2, 3][(k // 9) % 2], "ny": ny, "sseed": base, "jitter": 0.0,
+                "keep": None, "pts": {"mode": "const", "k": [0, 2, 3, 5][(k // 18) % 4]}, "bulge": 0.0, "straight_frac": 1.0,
+                "scale": sc, "rot": 0.0, "shift": [3 * sc, [0.0, sc / 2, 1024.0, 1024.0 + sc / 2][(k // 72) % 4]],   # text y = 1024 - y: both lines matter
+                "orient": ["ccw", "cw", "mixed"][k % 3], "ids": "contig0"}
+        ne = [2, 3, 6][(k // 2) % 3]
+        steps = [{"op": "parse", "slot": 0, "input": 0}, {"op": "generate_mesh", "slot": 0, "ne": ne, "rse": False},
+                 {"op": "frame", "slot": 0, "gt": False, "keep": False}]
+        return {"kind": "mesh", "prop": prop, "config": "grid", "seed": seed, "steps": steps, "release_order": "fifo",
+                "inputs": [{"kind": "voronoi", "spec": spec, "path": "wkt"}],
+                "grid": {"wkt_boundary": k % 288, "scale": sc, "ny": ny, "ne": ne}}
     tissue_no, cell = divmod(g, GRID_SIZE)
     ne = GRID_NE[cell % len(GRID_NE)]
     if prop == "C09" and ne < 2:
